@@ -123,8 +123,8 @@ def concrete_playback(crate, env, target, harness):
         test_src, test_name = m.group(1), m.group(2)
         vals = re.findall(r'vec!\[([0-9, ]*)\]', test_src)
         # put the test next to its harness in a scratch copy of the harness directory and run it natively
-        kd = os.path.join(os.path.dirname(crate), 'kani')
-        shutil.copytree(KANI_DIR, kd)
+        kd = os.path.join(os.path.dirname(crate), 'kani-' + harness)
+        shutil.copytree(KANI_DIR, kd, dirs_exist_ok=True)
         for f in os.listdir(kd):
             src = open(os.path.join(kd, f)).read()
             if re.search(r'\bfn %s\b' % harness, src) or ('%s,' % harness) in src:
@@ -137,6 +137,40 @@ def concrete_playback(crate, env, target, harness):
         return {'reproduced': failed, 'concrete_bytes': vals[:8], 'panic': msg, 'test': test_name}
     except Exception as e:
         return {'reproduced': None, 'why': repr(e)[:200]}
+
+
+def start(groups, **kw):
+    """run Kani groups on a background thread while the SMT engine works"""
+    import threading
+    box = {'results': []}
+
+    def body():
+        for g in groups:
+            try:
+                box['results'].append(run_group(g, **kw))
+            except Exception as e:
+                box['results'].append({'group': g, 'status': 'inconclusive', 'why': repr(e)[:300], 'harnesses': {}, 'wall_s': 0, 'log': ''})
+    th = threading.Thread(target=body, daemon=True)
+    th.start()
+    box['thread'] = th
+    return box
+
+
+def join(box, rep, prop):
+    """wait, then feed the verdicts into the report; returns the evidence summary"""
+    box['thread'].join()
+    for r in box['results']:
+        for n in r.get('failed', []):
+            pb = (r.get('playback') or {}).get(n, {})
+            if pb and pb.get('reproduced') is False:
+                rep.broken.append({'why': 'Kani counterexample did not reproduce natively', 'harness': n, 'playback': pb})
+                continue
+            rep.violation({'stage': 'kani', 'harness': n}, {'property': prop, 'kind': 'kani', 'group': r['group'], 'harness': n,
+                                                              'failed_checks': r.get('failed_checks', {}).get(n), 'playback': pb,
+                                                              'how_to_replay': 'python3-vt smt/kani_run.py %s' % r['group']})
+        if r['status'] == 'inconclusive':
+            rep.broken.append({'why': 'Kani group %s inconclusive' % r['group'], 'detail': r.get('why'), 'log': r.get('log')})
+    return summary_for_evidence(box['results'])
 
 
 def summary_for_evidence(results):
